@@ -295,14 +295,23 @@ def gen_circuit(rng, profile):
     srcs = [i for i, l in enumerate(lines) if SRC_RE.match(l)]
     # 2-4 independent sources
     tries = 0
-    while len(srcs) < 2 and tries < 10:
+    target = rng.choice((2, 2, 3, 3, 4))
+    while len(srcs) < target and tries < 12:
         tries += 1
         a, b_ = rng.sample(nodes, 2) if len(nodes) >= 2 else (nodes[0], '0')
         if a == b_:
             continue
-        nm = 'I%d' % (50 + len(srcs))
-        lines.append('%s %s %s 1 ' % (nm, a, b_))
-        srcs.append(len(lines) - 1)
+        if rng.random() < 0.6:
+            nm = 'I%d' % (50 + len(srcs))
+            lines.append('%s %s %s 1 ' % (nm, a, b_))
+            srcs.append(len(lines) - 1)
+        else:
+            # voltage source with a series resistor
+            nm = 'V%d' % (50 + len(srcs))
+            mid = 'k%d' % (50 + len(srcs))
+            lines.append('%s %s %s 1 ' % (nm, a, mid))
+            srcs.append(len(lines) - 1)
+            lines.append('R%d %s %s %s' % (70 + len(srcs), mid, b_, rng.randint(1, 5)))
     for i in srcs[4:]:
         p = lines[i].split()
         lines[i] = 'R%d %s %s 2' % (80 + i, p[1], p[2])
@@ -742,7 +751,7 @@ def mna_checks(ci, case, wr, tr, res, flags):
         for g, mem in groups:
             kg = wr['killed'].get(g)
             if not kg or 'error' in kg:
-                res.count('kill_error')
+                res.count('kill_error:' + (kg or {}).get('error', 'missing').split(':')[0])
                 continue
             # initial conditions that survive kill_except(source) (finding F2): the implementation keeps them
             keep = list(mem)
@@ -1222,8 +1231,14 @@ def oracle_container(case, wr, res):
             return
         got = buckets(t_)
         exp, noise = container_expect(terms, idxs, s0)
+        fp = container_fingerprint(case, idxs, total)
+        # S1 + S2 with an s-domain part in S2 is built from S1.decompose(): there the known decompose() defects
+        # corrupt the stored sum itself, not only its dc/ac/transient views
+        via_decompose = total and len(case['groups']) > 1 and \
+            any(any(t2['k'] == 'sdom' for t2 in flat_terms([terms[i]])) for g in case['groups'][1:] for i in g)
         if not bk_eq(got, exp):
-            out.append({'key': 'container:add', 'case': case, 'what': '%s: stored parts %s differ from the sum of the added terms %s' % (label, got, exp)})
+            for k in (sorted(fp) if (fp and via_decompose) else ['container:add']):
+                out.append({'key': k, 'case': case, 'what': '%s: stored parts %s differ from the sum of the added terms %s' % (label, got, exp)})
         gn = {k: v for k, v in got['noise'].items()}
         exp_amp = sorted(abs(v) for v in noise.values())
         got_amp = sorted(abs(v[0]) for v in gn.values() if v[1] == 0)
@@ -1232,10 +1247,8 @@ def oracle_container(case, wr, res):
         if dump.get('n2') is not None and P(dump['n2']) != (sum((v * v for v in noise.values()), Fraction(0)), Fraction(0)):
             out.append({'key': 'noise:distinct-ids-power', 'case': case, 'what': '%s: total noise power %s, expected %s' % (label, dump['n2'], sum(v * v for v in noise.values()))})
         # the public views against the independent expectation
-        fp = container_fingerprint(case, idxs, total)
-
         def bad(what, g_, e_):
-            for k in (sorted(fp) if fp and what in ('dc', 'ac', 'transient') else ['reassembly:' + what]):
+            for k in (sorted(fp) if fp and (what in ('dc', 'ac', 'transient') or via_decompose) else ['reassembly:' + what]):
                 out.append({'key': k, 'case': case, 'what': '%s: %s is %s, the added terms give %s' % (label, what, g_, e_)})
         if dump.get('dc') is not None and P(dump['dc']) != exp['dc']:
             bad('dc', dump['dc'], exp['dc'])
@@ -1324,7 +1337,7 @@ def run(tier='quick', replay=None):
                 res.failed_obl.append(('StampsGen', 'StampsGen.v', out[-800:]))
                 res.obligations += 1
             else:
-                for f in ('C01model.v', 'C03defs.v', 'C03model.v', 'C03.v', 'C03net.v'):
+                for f in ('C01model.v', 'C03defs.v', 'C03model.v', 'C03a.v', 'C03b.v', 'C03c.v', 'C03d.v', 'C03.v', 'C03net.v'):
                     texts[f] = open(os.path.join(core.VERIF, 'coq', 'props', f)).read()
                     w.write(f, texts[f])
                 bad = core.gate_text('generated+props', '\n'.join(texts.values()))
@@ -1340,13 +1353,17 @@ def run(tier='quick', replay=None):
                     r1 = core.coqc_many(w.dir, ['C03defs.v'], timeout=300)
                     allr.update(r1)
                     if r1['C03defs.v'][0]:
-                        r2 = core.coqc_many(w.dir, ['C03model.v', 'C03.v'], timeout=1500)
+                        r2 = core.coqc_many(w.dir, ['C03model.v', 'C03a.v', 'C03b.v', 'C03c.v', 'C03d.v'], timeout=1500)
                         allr.update(r2)
                         model_ok = r2['C03model.v'][0]
-                        if r2['C03.v'][0]:
+                        r3 = {}
+                        if all(r2[f_][0] for f_ in ('C03a.v', 'C03b.v', 'C03c.v', 'C03d.v')):
+                            r3 = core.coqc_many(w.dir, ['C03.v'], timeout=600)
+                            allr.update(r3)
+                        if r3 and r3['C03.v'][0]:
                             allr.update(core.coqc_many(w.dir, ['C03net.v'], timeout=900))
                         else:
-                            res.failed_obl.append(('mna_superposition', 'C03net.v', 'not checked: Gen.C03 failed'))
+                            res.failed_obl.append(('mna_superposition', 'C03net.v', 'not checked: a per-class linearity lemma (Gen.C03a-d/C03) failed'))
                             res.obligations += 1
                 res.coq_results(w.dir, allr, {f: texts[f] for f in allr})
                 res.extra['coq_seconds'] = {f: round(r[2], 1) for f, r in allr.items()}
